@@ -156,6 +156,7 @@ static std::string do_api(std::istringstream& is) {
     { std::ofstream f(valid, std::ios::binary); f.write(reinterpret_cast<const char*>(b.data()), std::streamsize(b.size())); }
     std::string out; std::string op; out.reserve(1 << 16); op.reserve(64);
     long long live0 = g_live; int threads0 = count_threads();
+    for (int i = 0; i < 50; i++) { usleep(10000); int t = count_threads(); if (t == threads0) break; threads0 = t; }   // settled (see below)
     long appOwned = 0;
     {
         File* f = new File;
@@ -174,6 +175,9 @@ static std::string do_api(std::istringstream& is) {
     }
     unlink(valid.c_str()); unlink(outp.c_str());
     long long leak = (long long)g_live - live0; int threads1 = count_threads();
+    // a thread that has been joined may stay listed in /proc/self/task for a moment (the joiner is released when the kernel
+    // clears the tid, before the task is reaped): a thread that was really left behind stays, so look again for up to 2 s
+    for (int i = 0; i < 100 && threads1 != threads0; i++) { usleep(20000); threads1 = count_threads(); }
     (void)appOwned;
     return "api " + out + " | end leak=" + std::to_string(leak) + " threads=" + std::to_string(threads1 - threads0);
 }
